@@ -77,14 +77,19 @@ SPEC = Spec(
         "dlReturn is an environment step of the manager model; the harness realises only schedules in which a tick does not race with a completion (the scripted requestor refuses "
         "requests for a block while that block is being delivered); the model and its theorems cover the race",
         "NOT exercised against the implementation: the literal timers time.After(2 min), time.After(1 h), 60 x time.After(10 s) in block_downloader.go (the model has them as nondeterministic steps; the harness never waits for them), "
-        "interleavings finer than call granularity (covered by the proofs only), and a peer that stalls inside ReadCloser.Read while CancelBlockRequest holds stateLock",
+        "interleavings finer than call granularity (covered by the proofs only)",
+        "node stream: CancelBlockRequest / RequestBlock are called while the node is quiescent (the scripted peer has sent what it sends and the node waits for input), i.e. a stalled download is "
+        "a peer that sent part of the block and nothing more; a cancel racing with bytes in flight is not exercised. A CancelBlockRequest that has not returned after 300 ms is reported as `hung` "
+        "(what the code did before fix 7843a17). The handler given to RequestBlock returns nil iff it received as many transactions as announced (as BlockDownloader.handleBlock does for a short stream)",
     ],
     static_checks=static_checks,
     modelled_funcs=["BlockManager.AddRequest", "BlockManager.Run", "BlockManager.processRequest", "BlockManager.requestBlock", "BlockManager.cancelDownloaders",
                     "BlockManager.removeDownloader", "BlockManager.markBlockRequestComplete", "downloadFinisher.onDownloaderCompleted", "BlockManager.Stop",
                     "BlockManager.shutdown", "BlockManager.close", "NewBlockManager",
                     "BlockDownloader.Run", "BlockDownloader.cancelAndWaitForComplete", "BlockDownloader.Stop", "BlockDownloader.Cancel",
-                    "BlockDownloader.HandleBlock", "BlockDownloader.handleBlock", "NewBlockDownloader"],
+                    "BlockDownloader.HandleBlock", "BlockDownloader.handleBlock", "NewBlockDownloader",
+                    "BitcoinNode.RequestBlock", "BitcoinNode.CancelBlockRequest", "BitcoinNode.RequestHeaders", "BitcoinNode.IsBusy",
+                    "BitcoinNode.handleBlock", "BitcoinNode.completeBlock", "BitcoinNode.run"],
 )
 
 META = dict(
